@@ -42,13 +42,13 @@ func extractURL(req *http.Request) *url.URL {
 
 	if val := req.Header.Get("X-Forwarded-Uri"); len(val) != 0 {
 		if forwardedURI, err := url.Parse(val); err == nil {
-			rawPath = forwardedURI.EscapedPath()
+			rawPath = receivedPath(forwardedURI)
 			query = forwardedURI.Query().Encode()
 		}
 	}
 
 	if len(rawPath) == 0 {
-		rawPath = req.URL.EscapedPath()
+		rawPath = receivedPath(req.URL)
 	}
 
 	if len(query) == 0 {
@@ -64,4 +64,16 @@ func extractURL(req *http.Request) *url.URL {
 		RawPath:  rawPath,
 		RawQuery: query,
 	}
+}
+
+// receivedPath returns the path of the given URL as it has been received. EscapedPath must not
+// be used if RawPath is set: if the received path is not in the canonical form expected by
+// net/url (e.g. it contains a '|'), it returns the re-encoded form of the decoded path, which
+// turns an encoded slash into a path separator.
+func receivedPath(u *url.URL) string {
+	if len(u.RawPath) != 0 {
+		return u.RawPath
+	}
+
+	return u.EscapedPath()
 }
